@@ -55,6 +55,11 @@ func c04Stream(env *fw.Env) {
 	for _, l := range []uint32{0, 1, 9, 1<<24 - 1 + 1, 1 << 28, 1<<31 - 1, 1 << 31, 1<<32 - 1} {
 		jobs = append(jobs, job{"bad-length", int(l)})
 	}
+	// the two largest well-formed frames on a LIVE connection (the decode half holds the same inputs against the pure
+	// decoders): a length field of cap-1 and of exactly cap = 2^24-1 is a valid frame and must be delivered
+	for _, l := range []int{1<<24 - 2, 1<<24 - 1} {
+		jobs = append(jobs, job{"cap-boundary", l})
+	}
 	for i, j := range jobs {
 		if !env.Mine(int64(i)) || !env.Want(int64(i)) {
 			continue
@@ -145,6 +150,31 @@ func c04StreamOne(env *fw.Env, i int64, kind string, arg int) {
 	}
 
 	switch kind {
+	case "cap-boundary":
+		bodyLen := arg - 10
+		body := make([]byte, bodyLen) // one Binary item with a 3-byte length: 0x23 len len len payload
+		body[0] = 0x23
+		pl := bodyLen - 4
+		body[1], body[2], body[3] = byte(pl>>16), byte(pl>>8), byte(pl)
+		for k := 4; k < len(body); k += 4093 {
+			body[k] = byte(k)
+		}
+		f := peer.Data(7, 3, false, 0x1234, 0xCA9B0000|uint32(arg&0xFFFF), body)
+		cs.Frames, cs.Bytes, cs.Note = 1, arg+4, fmt.Sprintf("length field %d (cap = %d)", arg, 1<<24-1)
+		env.Begin(i, cs)
+		env.Sample(cs)
+		env.Eval(fw.HashStr("cap-boundary", fmt.Sprint(arg)), true)
+		if err := pc.Send(f); err != nil {
+			fail("cap-boundary-link-dropped", fmt.Sprintf("writing a well-formed frame with length field %d (cap %d) failed: %v — the library dropped the link on a frame inside [10, cap]", arg, 1<<24-1, err))
+			return
+		}
+		if _, err := pc.Barrier(30 * time.Second); err != nil {
+			fail("cap-boundary-link-dropped", fmt.Sprintf("after a well-formed frame with length field %d (cap %d) the link no longer answers: %v", arg, 1<<24-1, err))
+			return
+		}
+		if checkDelivered([]peer.Frame{f}) {
+			env.Event("cap_boundary_frames_delivered", 1)
+		}
 	case "cut-prefix", "random-splits", "dribble":
 		nf := 1 + r.IntN(20)
 		maxBody := 300 << 10
